@@ -128,7 +128,13 @@ func GenCreds(suites []ref.Suite) *rapid.Generator[Creds] {
 		c.User = GenUsername().Draw(t, "user")
 		c.Password = rapid.SliceOfN(rapid.Byte(), 0, 20).Draw(t, "password")
 		if rapid.Bool().Draw(t, "hasKG") {
-			c.KG = rapid.SliceOfN(rapid.Byte(), 20, 20).Draw(t, "kg")
+			// K_G is a 20-byte value; a shorter one is the same HMAC key as its
+			// zero-padded form, which is what the BMC stores
+			n := 20
+			if rapid.IntRange(0, 3).Draw(t, "shortKG") == 0 {
+				n = rapid.IntRange(1, 19).Draw(t, "kgLen")
+			}
+			c.KG = rapid.SliceOfN(rapid.Byte(), n, n).Draw(t, "kg")
 		}
 		c.Priv = uint8(rapid.IntRange(0, 5).Draw(t, "priv"))
 		c.Lookup = rapid.Bool().Draw(t, "lookup")
